@@ -223,8 +223,78 @@ structure INV (P : Prog) (s : Storage) (B : List NodeId) : Prop where
   nodes : ∀ n r, alookup s.derived n = some r → n ∉ B → RevOk P s n r
   busyTv : ∀ n r, alookup s.derived n = some r → n ∈ B → r.tv = s.epoch
 
+/-- the dependency was re-stamped since it was recorded -/
+def Changed (s : Storage) (d : Dep) : Prop :=
+  match d.node with
+  | .source k => ∀ nd, alookup s.srcs k = some nd → d.stamp < nd.tu
+  | .absent k => (alookup s.srcs k).isSome = true
+  | .derived q => ∀ rq, alookup s.derived q = some rq → d.stamp < rq.tu
+
+/-- what happens to the stored nodes within one epoch: a node is left alone, or — if it was not yet
+verified in this epoch — verified, keeping value and `time_updated`, or re-stamped with a NEW value -/
+structure Moves (s s' : Storage) : Prop where
+  epoch : s'.epoch = s.epoch
+  srcs : s'.srcs = s.srcs
+  maps : s'.maps = s.maps
+  node : ∀ q r, alookup s.derived q = some r → ∃ r', alookup s'.derived q = some r' ∧
+    (r' = r ∨ (r.tv < s.epoch ∧ r'.tv = s.epoch ∧
+      ((r'.val = r.val ∧ r'.tu = r.tu) ∨ (r.deps ≠ [] ∧ r.tv < r'.tu ∧ r'.val ≠ r.val))))
+
+theorem Moves.refl (s : Storage) : Moves s s := ⟨rfl, rfl, rfl, fun _ r h => ⟨r, h, Or.inl rfl⟩⟩
+
+theorem Moves.trans {a b c : Storage} (h1 : Moves a b) (h2 : Moves b c) : Moves a c := by
+  refine ⟨h2.epoch.trans h1.epoch, h2.srcs.trans h1.srcs, h2.maps.trans h1.maps, ?_⟩
+  intro q r hq
+  obtain ⟨r1, hq1, hc1⟩ := h1.node q r hq
+  obtain ⟨r2, hq2, hc2⟩ := h2.node q r1 hq1
+  refine ⟨r2, hq2, ?_⟩
+  rcases hc1 with rfl | ⟨hlt, htv, hcase⟩
+  · rcases hc2 with rfl | ⟨hlt2, htv2, hcase2⟩
+    · exact Or.inl rfl
+    · right; rw [h1.epoch] at hlt2 htv2; exact ⟨hlt2, htv2, hcase2⟩
+  · rcases hc2 with rfl | ⟨hlt2, _, _⟩
+    · exact Or.inr ⟨hlt, htv, hcase⟩
+    · rw [h1.epoch] at hlt2; omega
+
+theorem Moves.congr_left {s s0 s' : Storage} (h : Moves s s') (he : s0.epoch = s.epoch)
+    (hs : s0.srcs = s.srcs) (hm : s0.maps = s.maps) (hd : s0.derived = s.derived) : Moves s0 s' :=
+  ⟨by rw [he]; exact h.epoch, by rw [hs]; exact h.srcs, by rw [hm]; exact h.maps,
+   fun q r hq => by rw [hd] at hq; rw [he]; exact h.node q r hq⟩
+
+/-- why the body of `m` may run while the storage moves on from `s`: `m` is not stored, or it is
+stored, not yet verified in this epoch, and one of its recorded dependencies is found re-stamped
+at some moment `sx` of the move -/
+def Just (s : Storage) (m : NodeId) : Prop :=
+  alookup s.derived m = none ∨
+    ∃ rev d sx, alookup s.derived m = some rev ∧ rev.tv < s.epoch ∧ d ∈ rev.deps ∧ Moves s sx ∧ Changed sx d
+
+theorem Just.congr_left {s s0 : Storage} {m : NodeId} (h : Just s m) (he : s0.epoch = s.epoch)
+    (hs : s0.srcs = s.srcs) (hm : s0.maps = s.maps) (hd : s0.derived = s.derived) : Just s0 m := by
+  rcases h with h | ⟨rev, d, sx, h1, h2, h3, h4, h5⟩
+  · exact Or.inl (by rw [hd]; exact h)
+  · exact Or.inr ⟨rev, d, sx, by rw [hd]; exact h1, by rw [he]; exact h2, h3, h4.congr_left he hs hm hd, h5⟩
+
+/-- a justification relative to a later moment is one relative to an earlier moment -/
+theorem Just.back {a b : Storage} {m : NodeId} (hab : Moves a b) (h : Just b m) : Just a m := by
+  rcases h with h | ⟨rev, d, sx, h1, h2, h3, h4, h5⟩
+  · cases ha : alookup a.derived m with
+    | none => exact Or.inl ha
+    | some r =>
+      obtain ⟨r', hr', _⟩ := hab.node m r ha
+      rw [h] at hr'; cases hr'
+  · cases ha : alookup a.derived m with
+    | none => exact Or.inl ha
+    | some r =>
+      obtain ⟨r', hr', hc⟩ := hab.node m r ha
+      have e : r' = rev := Option.some.inj (hr'.symm.trans h1)
+      rcases hc with hc | ⟨_, htv, _⟩
+      · have e2 : rev = r := e.symm.trans hc
+        rw [e2] at h2 h3
+        exact Or.inr ⟨r, d, sx, ha, by rw [← hab.epoch]; exact h2, h3, hab.trans h4, h5⟩
+      · rw [e] at htv; rw [hab.epoch] at h2; omega
+
 /-- what may happen to the stored nodes while something else is brought up to date; only nodes
-satisfying `bp` are touched or created -/
+satisfying `bp` are touched or created, only bodies of such nodes run, and each run is justified -/
 structure Evolves (bp : NodeId → Prop) (s s' : Storage) : Prop where
   epoch : s'.epoch = s.epoch
   srcs : s'.srcs = s.srcs
@@ -233,38 +303,68 @@ structure Evolves (bp : NodeId → Prop) (s s' : Storage) : Prop where
     (r' = r ∨ (bp q ∧ r.tv < s.epoch ∧ r'.tv = s.epoch ∧
       ((r'.val = r.val ∧ r'.tu = r.tu) ∨ (r.deps ≠ [] ∧ r.tv < r'.tu ∧ r'.val ≠ r.val))))
   born : ∀ q, alookup s.derived q = none → (alookup s'.derived q).isSome = true → bp q
+  log : ∃ new, s'.log = new ++ s.log ∧ ∀ m, m ∈ new → bp m ∧ Just s m
 
-theorem Evolves.refl (bp : NodeId → Prop) (s : Storage) : Evolves bp s s :=
-  ⟨rfl, rfl, rfl, fun q r h => ⟨r, h, Or.inl rfl⟩, fun q hq hq' => by simp [hq] at hq'⟩
-
-theorem Evolves.mono {bp bp' : NodeId → Prop} {s s' : Storage} (h : Evolves bp s s') (hb : ∀ q, bp q → bp' q) :
-    Evolves bp' s s' := by
-  refine ⟨h.epoch, h.srcs, h.maps, ?_, fun q hq hq' => hb q (h.born q hq hq')⟩
+theorem Evolves.moves {bp : NodeId → Prop} {s s' : Storage} (h : Evolves bp s s') : Moves s s' := by
+  refine ⟨h.epoch, h.srcs, h.maps, ?_⟩
   intro q r hq
   obtain ⟨r', hq', hc⟩ := h.node q r hq
   refine ⟨r', hq', ?_⟩
-  rcases hc with rfl | ⟨h1, h2⟩
+  rcases hc with rfl | ⟨_, h2⟩
   · exact Or.inl rfl
-  · exact Or.inr ⟨hb q h1, h2⟩
+  · exact Or.inr h2
 
-theorem Evolves.trans {bp : NodeId → Prop} {a b c : Storage} (h1 : Evolves bp a b) (h2 : Evolves bp b c) :
+theorem Evolves.refl (bp : NodeId → Prop) (s : Storage) : Evolves bp s s :=
+  ⟨rfl, rfl, rfl, fun q r h => ⟨r, h, Or.inl rfl⟩, fun q hq hq' => by simp [hq] at hq',
+   ⟨[], rfl, fun _ h => by cases h⟩⟩
+
+theorem Evolves.mono {bp bp' : NodeId → Prop} {s s' : Storage} (h : Evolves bp s s') (hb : ∀ q, bp q → bp' q) :
+    Evolves bp' s s' := by
+  refine ⟨h.epoch, h.srcs, h.maps, ?_, fun q hq hq' => hb q (h.born q hq hq'), ?_⟩
+  · intro q r hq
+    obtain ⟨r', hq', hc⟩ := h.node q r hq
+    refine ⟨r', hq', ?_⟩
+    rcases hc with rfl | ⟨h1, h2⟩
+    · exact Or.inl rfl
+    · exact Or.inr ⟨hb q h1, h2⟩
+  · obtain ⟨new, h1, h2⟩ := h.log
+    exact ⟨new, h1, fun m hm => ⟨hb m (h2 m hm).1, (h2 m hm).2⟩⟩
+
+/-- composition, where between the two steps some bodies `mid` (justified relative to `a`) started -/
+theorem Evolves.trans' {bp : NodeId → Prop} {a b b' c : Storage} (h1 : Evolves bp a b) (h2 : Evolves bp b' c)
+    (he : b'.epoch = b.epoch) (hs : b'.srcs = b.srcs) (hm : b'.maps = b.maps) (hd : b'.derived = b.derived)
+    (mid : List NodeId) (hlog : b'.log = mid ++ b.log) (hmid : ∀ m, m ∈ mid → bp m ∧ Just a m) :
     Evolves bp a c := by
-  refine ⟨h2.epoch.trans h1.epoch, h2.srcs.trans h1.srcs, h2.maps.trans h1.maps, ?_, ?_⟩
+  refine ⟨h2.epoch.trans (he.trans h1.epoch), h2.srcs.trans (hs.trans h1.srcs), h2.maps.trans (hm.trans h1.maps), ?_, ?_, ?_⟩
   · intro q r hq
     obtain ⟨r1, hq1, hc1⟩ := h1.node q r hq
-    obtain ⟨r2, hq2, hc2⟩ := h2.node q r1 hq1
+    obtain ⟨r2, hq2, hc2⟩ := h2.node q r1 (by rw [hd]; exact hq1)
     refine ⟨r2, hq2, ?_⟩
     rcases hc1 with rfl | ⟨hb, hlt, htv, hcase⟩
     · rcases hc2 with rfl | ⟨hb2, hlt2, htv2, hcase2⟩
       · exact Or.inl rfl
-      · right; rw [h1.epoch] at hlt2 htv2; exact ⟨hb2, hlt2, htv2, hcase2⟩
+      · right; rw [he, h1.epoch] at hlt2 htv2; exact ⟨hb2, hlt2, htv2, hcase2⟩
     · rcases hc2 with rfl | ⟨_, hlt2, _, _⟩
       · exact Or.inr ⟨hb, hlt, htv, hcase⟩
-      · rw [h1.epoch] at hlt2; omega
+      · rw [he, h1.epoch] at hlt2; omega
   · intro q hq hq'
     cases hq1 : alookup b.derived q with
-    | none => exact h2.born q hq1 hq'
+    | none => exact h2.born q (by rw [hd]; exact hq1) hq'
     | some r1 => exact h1.born q hq (by simp [hq1])
+  · obtain ⟨n1, e1, j1⟩ := h1.log
+    obtain ⟨n2, e2, j2⟩ := h2.log
+    refine ⟨n2 ++ mid ++ n1, by rw [e2, hlog, e1]; simp, ?_⟩
+    intro x hx
+    rcases List.mem_append.1 hx with hx | hx
+    · rcases List.mem_append.1 hx with hx | hx
+      · obtain ⟨p, j⟩ := j2 x hx
+        exact ⟨p, (j.congr_left he.symm hs.symm hm.symm hd.symm).back h1.moves⟩
+      · exact hmid x hx
+    · exact j1 x hx
+
+theorem Evolves.trans {bp : NodeId → Prop} {a b c : Storage} (h1 : Evolves bp a b) (h2 : Evolves bp b c) :
+    Evolves bp a c :=
+  h1.trans' h2 rfl rfl rfl rfl [] rfl (fun _ h => by cases h)
 
 /-- an edge fact of an UNCHANGED revision survives whatever happens to the other nodes -/
 theorem DepFor.evolves {bp : NodeId → Prop} {s s' : Storage} {r : Rev} {rd : Read} (he : Evolves bp s s') (htv : r.tv ≤ s.epoch)
